@@ -29,13 +29,36 @@ let print_obs oc (o : n list option) =
                 output_string oc (string_of_int (int_of_n x))) l;
     output_char oc '\n'
 
-let num s = n_of_int (int_of_string s)
+(* decimal string of any size -> N, by repeated halving of the digit string *)
+let n_of_decimal (s : string) : n =
+  if String.length s <= 18 then n_of_int (int_of_string s) else begin
+    let d = Array.init (String.length s) (fun i -> Char.code s.[i] - 48) in
+    let is_zero () = Array.for_all (fun x -> x = 0) d in
+    let bits = ref [] in
+    while not (is_zero ()) do
+      let carry = ref 0 in
+      for i = 0 to Array.length d - 1 do
+        let cur = !carry * 10 + d.(i) in
+        d.(i) <- cur / 2; carry := cur mod 2
+      done;
+      bits := !carry :: !bits           (* most significant bit ends up first *)
+    done;
+    match !bits with
+    | [] -> N0
+    | _ :: rest -> Npos (List.fold_left (fun p b -> if b = 1 then XI p else XO p) XH rest)
+  end
+let num s = n_of_decimal s
 
 let run_case (toks : string list) : n list option =
   match toks with
   | ["PKT"; h] -> run_packet (bytes_of_tok h)
   | ["P12"; h] -> run_packet_c12 (bytes_of_tok h)
   | ["AF"; h] -> run_af (bytes_of_tok h)
+  | ["TSB"; h] -> run_tsb (bytes_of_tok h)
+  | ["TSU"; v] -> run_tsu (num v)
+  | ["TSW"; a; b] -> run_tsw (num a) (num b)
+  | ["CRP"; a; b] -> run_crp (num a) (num b)
+  | ["CRS"; h] -> run_crs (bytes_of_tok h)
   | k :: _ -> failwith ("unknown case kind " ^ k)
   | [] -> failwith "empty case"
 
